@@ -909,6 +909,9 @@ func (f *Frame) havocFootprint(ct *Contract, ctx *SpecCtx, pre, st *State) {
 		u.havocAll(st)
 		done := map[string]T{}
 		for _, k := range excepted {
+			if u.eng.LockMode && strings.HasPrefix(k.key, "F:sync.RWMutex.") {
+				continue // kept as a whole by havocAll
+			}
 			nh, ok := done[k.key]
 			if !ok {
 				nh = u.heapHavoc(st, k.key, k.sort)
@@ -968,8 +971,14 @@ func (f *Frame) havocFootprint(ct *Contract, ctx *SpecCtx, pre, st *State) {
 func (u *Unit) havocAll(st *State) {
 	nh := map[string]T{}
 	for k, v := range st.heap {
-		if strings.HasPrefix(k, "IT:") {
+		if strings.HasPrefix(k, "IT:") || (u.eng.LockMode && strings.HasPrefix(k, "F:sync.RWMutex.")) {
+			// iterator state; with lock tracking: which mutexes this goroutine holds is not changed by callees
 			nh[k] = v
+		}
+	}
+	if u.eng.LockMode {
+		for _, k := range []string{"F:sync.RWMutex.writerSem", "F:sync.RWMutex.readerSem"} {
+			nh[k] = u.heapGet(st, k, arrSort(SInt, SInt))
 		}
 	}
 	snap := epochSnap{heap: st.heap, prev: st.epoch, preserve: append([]T{}, u.localRefs...)}
